@@ -281,11 +281,28 @@ class BlobWorld:
         mb.work = None
         mb.owned = False
 
-    def _model_abort(self):
+    def _unadded(self, n, data):
+        """A blob created in this transaction is disowned by an abort or a
+        rollback: the application keeps the object, which is a plain new
+        blob again and holds the data it had (attached again, it is stored
+        with them)."""
+        mb = self.model[n]
+        self._oid_of.pop(n, None)
+        mb.revs = []
+        mb.work = data
+        mb.owned = False
+
+    def _model_abort(self, data_kept=False):
         for n, mb in self.model.items():
             if mb.new_in_txn:
                 mb.new_in_txn = False
-                self._fresh(n)
+                if data_kept:
+                    self._unadded(n, mb.work)
+                else:
+                    # (a commit that failed had been handed the blob's file:
+                    # the object the application holds is empty now, it
+                    # takes a new one)
+                    self._fresh(n)
             elif mb.owned:
                 mb.work = mb.committed()
             # a blob that never belonged to the database keeps its data
@@ -364,7 +381,7 @@ class BlobWorld:
                 m[n] = snap[n].copy()
                 if not m[n].owned:
                     if was_owned:
-                        self._fresh(n)      # created after the savepoint
+                        self._unadded(n, cur)   # created after the savepoint
                     else:
                         m[n].work = cur
             self.p_dirty, self.root_dirty = pd, rd
@@ -391,7 +408,7 @@ class BlobWorld:
             return 'rivalB'
         if k == 'abort':
             self.tm.abort()
-            self._model_abort()
+            self._model_abort(data_kept=True)
             return 'abort'
         if k in ('commit', 'commit-vote-fail', 'commit-pack-inside'):
             return self._commit(k)
